@@ -18,7 +18,7 @@ ALL_CASES = [("h/*/*", "h/a/", "", "h/s/q1"), ("h/*", "h/a/", "", ""), ("*", "h/
 
 def x_obligations(tier):
     o = []
-    T = 170 if tier == "quick" else 1500
+    T = 170 if tier == "quick" else 600
     for i, (s, epre, esuf, fixed, junk, jpre, jsuf) in enumerate(CASES):
         if tier == "quick" and i in (4, 7):
             continue
